@@ -14,6 +14,12 @@ pub trait ExStdError: core::fmt::Debug + core::fmt::Display {
     type ExternalTraitSpecificationFor: std::error::Error;
 }
 
+/// `std::io::Error` as it appears (only) in the bound `E: From<std::io::Error>`
+/// of AccessPoint<E>, kept verbatim in the extracted headers
+#[verifier::external_type_specification]
+#[verifier::external_body]
+pub struct ExIoError(std::io::Error);
+
 /// `sos_core::AuthenticationError` (crates/core/src/error.rs:172): the variant
 /// constructed by the extracted code plus a catch-all.
 #[derive(Debug)]
